@@ -103,6 +103,15 @@ CHECKS.update({
          "machine-checked proof in Coq (progress and soundness invariants over the parser loops, mutual induction on the recursion budget) + mutation testing of the parser + totality/validity oracle"),
 })
 
+CHECKS.update({
+ "C16": ("other", "Partial proof + differential testing. Coq theorems (no axioms) cover every stage of from_string that follows the regular expression: every description / extension text (quotes, backslashes, escape look-alikes, any code point) is recovered from its quoted form; the whole extensions block (any number of X- items, single values and parenthesised lists incl. the empty list) parses back; OID lists and NAME lists parse back. NOT proved: that the one big regular expression of each description type splits the printed definition into the intended groups - that stage (and the whole round trip) is decided by running implementation and extracted model (the regexes are regenerated from the source on every run and executed by the backtracking matcher of Rx/Syntax.v) on generated definitions, judged by an independent RFC 4512 reference parser.",
+         OTHER_NOTE.replace("No Coq theorem about this property is closed yet in this commit", "The regex stage has no theorem"),
+         "print/parse round-trip oracle + reference parser + model/implementation correspondence; Coq theorems for the post-regex stages (qdstring, extensions, OID and name lists)"),
+ "C19": ("other", "Pairs of session histories run interleaved and alone must give identical transcripts; custom control / filter / credential registration is exercised with distinct type sets per session, with a different class for a taken id and classes colliding with built-in ids. A Coq theorem states that in the model any interleaving of two sessions' calls gives each the outcomes and state it gets alone - true by construction of a pure model (no shared state), so it documents the model rather than the code: whether Python objects share state is what the experiment decides.",
+         "Hidden shared state in the implementation (class attributes, module-level registries) cannot be exhibited by a pure Gallina model; custom-type registries are not modelled.",
+         "interleaved-vs-isolated transcript comparison + registration oracle + two independent model instances; Coq theorem on the model's product structure"),
+})
+
 def main():
     m = {
         "version": 1,
